@@ -134,6 +134,10 @@ type endpoint struct {
 	// endpoint is in this state. hardError is protected by mu.
 	hardError *tcpip.Error
 
+	// rstReceived is set by the protocol goroutine when the connection is
+	// being aborted because a valid RST segment arrived.
+	rstReceived bool
+
 	// workerRunning specifies if a worker goroutine is running.
 	workerRunning bool
 
